@@ -355,14 +355,14 @@ func c05Restart(p *Program, r *Report) {
 		return
 	}
 	fn := lc.HandleRestart
-	g := p.ig(fn)
+	g := p.igxSkip(fn, lc.roleFuncs(p)) // the step may be split into helpers of the handler
 	// success path nodes: state←running store
 	run := nodesWhere(g, func(in ssa.Instruction) bool {
 		a := atomicCall(in)
 		return a != nil && a.Field == lc.State && a.Op == "Store"
 	})
 	launch := map[int]bool{}
-	for _, ts := range p.tellSites(fn) {
+	for _, ts := range p.tellSitesG(g) {
 		if isAllocOf(ts.Message, "OnLaunch") {
 			launch[g.Idx[ts.In]] = true
 		}
@@ -417,7 +417,7 @@ func c05Restart(p *Program, r *Report) {
 		}
 	}
 	provNil := map[edge]bool{}
-	for _, ifi := range ifsOf(fn) {
+	for _, ifi := range g.ifs() {
 		for _, outcome := range []bool{true, false} {
 			f, ok := condFact(ifi.Cond, outcome)
 			if ok && f.IsNil && f.Op == token.EQL && anyContains(p.origins(f.X), ".Provider<-") {
@@ -425,7 +425,7 @@ func c05Restart(p *Program, r *Report) {
 			}
 		}
 	}
-	av := p.assumeAvoid(g, map[*types.Var]bool{lc.Continue: true, lc.Restarting: true})
+	av := p.assumeRestarting(lc, g)
 	good = len(actorStore) > 0 && len(provNil) > 0 && !anyIn(g.Reach(g.entry(), actorStore, mergeEdges(av, provNil)), g.Exits)
 	r.Check(good, "provider supplies a fresh actor instance", firstPos(g, actorStore), "with a provider configured every restarting path stores Provider.Provide() into the context's actor field")
 	// behaviour stack reset: Clear then Push(actor.OnReceive) with actor loaded after the provider store
